@@ -82,7 +82,7 @@ def gen_market(rnd, ndays=22, warm=3, n_stocks=None, with_future=None, opts=None
             for dv in divs:
                 if dv[1] == i:
                     dps = dv[3] / 10
-                    newref = round(ref - dps, 2)
+                    newref = ref - dps             # exact: the factor table must be consistent with the dividend (Bundle.WF)
                     if newref > 0.5 and (dv[0] >= listed_i):
                         f *= ref / newref
                         fac.append((d14(dd), f))
@@ -142,6 +142,7 @@ def gen_market(rnd, ndays=22, warm=3, n_stocks=None, with_future=None, opts=None
             bars = {}
             exp_i = None if (rnd.random() >= opts.get("p_expire", 0.4) or len(cal) - 1 <= warm + 6) else rnd.randrange(warm + 6, len(cal) - 1)
             prev = p
+            prev_st = p
             for i, dd in enumerate(cal):
                 if exp_i is not None and i > exp_i:
                     continue
@@ -149,8 +150,10 @@ def gen_market(rnd, ndays=22, warm=3, n_stocks=None, with_future=None, opts=None
                 o = float(round(prev * (1 + rnd.uniform(-0.02, 0.02))))
                 st = float(round((o + c) / 2))
                 v = float(rnd.choice([0, 5, 20, 1000, 1000, 1000]))
-                bars[i] = (d14(dd), o, c, max(o, c), min(o, c), v, v * c * mult, float(round(prev * 1.1)), float(round(prev * 0.9)), st, prev, 500.0)
+                # prev_settlement of a day = settlement of the previous day (Bundle.WF)
+                bars[i] = (d14(dd), o, c, max(o, c), min(o, c), v, v * c * mult, float(round(prev * 1.1)), float(round(prev * 0.9)), st, prev_st, 500.0)
                 prev = c
+                prev_st = st
             S["futures"].append({"id": oid, "under": under, "mult": mult, "bars": bars, "expire": None if exp_i is None else cal[exp_i],
                                  "info": {"underlying_symbol": under,
                                           "close_commission_ratio": [0.0001, 2.0, 0.0001][k], "close_commission_today_ratio": [0.0003, 6.0, 0.0003][k],
